@@ -591,7 +591,8 @@ class TSQLGenerator(generator.Generator):
     def alter_sql(self, expression: exp.Alter) -> str:
         action = seq_get(expression.args.get("actions") or [], 0)
         if isinstance(action, exp.AlterRename):
-            return f"EXEC sp_rename '{self.sql(expression.this)}', '{action.this.name}'"
+            old_name = self.escape_str(self.sql(expression.this))
+            return f"EXEC sp_rename '{old_name}', '{self.escape_str(action.this.name)}'"
         return super().alter_sql(expression)
 
     def drop_sql(self, expression: exp.Drop) -> str:
